@@ -103,5 +103,7 @@ func TakeRuntimeContext() *RuntimeContext {
 }
 
 func ReleaseRuntimeContext(ctx *RuntimeContext) {
+	// a pooled context must not hand this call's context.Context to a later call made without one
+	ctx.Option.Context = nil
 	runtimeContextPool.Put(ctx)
 }
